@@ -14,8 +14,20 @@
 (*                     lightpb.Group.UpdateBrightness (only the error,     *)
 (*                     panics, contexts and goroutines are visible)        *)
 (*   n       number of members                                            *)
-(*   act[m]  1 returned a message, 0 returned its error, 2 returned an     *)
-(*           error because it saw its context cancelled, -1 never returned *)
+(*   act[m]  1 returned a message, 0 returned an error of its own, 2       *)
+(*           returned an error because it saw its context ended, -1 never  *)
+(*           returned                                                      *)
+(*   ek[m]   what kind of error member m returned ("" if none): "plain",  *)
+(*           "canceled" / "deadline" (context.Canceled / DeadlineExceeded  *)
+(*           themselves), "wcanceled" / "wdeadline" (wrapped with %w),     *)
+(*           "gcanceled" / "gdeadline" (gRPC status).  A member's own      *)
+(*           error may be of any kind whatever the state of the group's    *)
+(*           context (a per-member timeout, an inner operation that was    *)
+(*           cancelled): the kind of a member's error never changes what   *)
+(*           the strategy owes -- no clause below reads ek except to       *)
+(*           recognise the bare context errors, which carry no member id.  *)
+(*           Only the *group's own* context ending (cc) may cut a          *)
+(*           strategy short.                                               *)
 (*   ran[m]  the member function was invoked                               *)
 (*   seen[m] the member's context was cancelled when it returned           *)
 (*   obs     the order in which the members' returns were observable:      *)
@@ -24,13 +36,14 @@
 (*           rest (members woken by a cancellation) in unknown order       *)
 (*   panic   "" or the recovered panic                                     *)
 (*   returned  the call came back                                          *)
-(*   err     -1 nil, m >= 1 the error of member m, 0 any other error       *)
+(*   err     -1 nil, m >= 1 the error of member m, 0 an error without a    *)
+(*           member id;  errk: its kind as in ek, or "other"               *)
 (*   idx,msg (Direct One/Fast/Race) returned index (1-based) and message   *)
 (*           id (0 = nil)                                                  *)
 (*   res, resLen  the returned slice as message ids (0 = nil), -1/<<>> if  *)
 (*           there is none                                                 *)
-(*   order   (Trace only) the schedule: members in release order, 0 = the  *)
-(*           caller cancels its context; event j produces batch j + 1     *)
+(*   cc      0, or the first batch whose members may have seen the         *)
+(*           caller's own context ended (cancelled or deadline passed)     *)
 (*   leak    goroutines started by the call that still exist after every   *)
 (*           member has returned and nothing can move any more             *)
 (***************************************************************************)
@@ -50,6 +63,12 @@ Members(o) == 1..o.n
 Ok(o)  == {m \in Members(o) : o.act[m] = 1}
 Bad(o) == {m \in Members(o) : o.act[m] \in {0, 2}}
 Came(o) == Ok(o) \cup Bad(o)
+BatchOf(o, m) == Min({k \in 1..Len(o.obs) : m \in Range(o.obs[k].all)})
+
+\* the returned error is member m's: by id, or for the id-less bare context errors by kind
+BareKinds == {"canceled", "deadline"}
+IsErrOf(o, m) == o.err = m \/ (o.err = 0 /\ o.errk \in BareKinds /\ o.ek[m] = o.errk)
+ErrAmong(o, S) == \E m \in S : IsErrOf(o, m)
 
 (* "All fails exactly when some member fails, Most when more than half    *)
 (*  fail, Any when all fail" -- B is the set of failed members.           *)
@@ -88,27 +107,32 @@ SliceFails(o) ==
 UpToFails(o) ==
   If(Settled(o) => ((o.err # -1) = FailsWith(o, Bad(o))), "err-iff")
   \* "the error returned is the first one observed"
-  \cup If(o.err # -1 /\ Bad(o) # {} => o.err \in FirstIn(o, Bad(o)), "first-error")
+  \cup If(o.err # -1 /\ Bad(o) # {} => ErrAmong(o, FirstIn(o, Bad(o))), "first-error")
 
 OneFails(o) ==
-  LET upto == IF Ok(o) = {} THEN o.n ELSE Min(Ok(o)) IN
-  \* "tries members in order until one succeeds"
-  If({m \in Members(o) : o.ran[m]} = 1..upto, "one-order")
+  LET upto == IF Ok(o) = {} THEN o.n ELSE Min(Ok(o))
+      tried == {m \in Members(o) : o.ran[m]}
+      j == Cardinality(tried)
+  IN
+  \* "tries members in order until one succeeds": whatever kind of error the failed ones returned.
+  \* Only the group's own context ending may cut the sequence short: stopping after member j < upto
+  \* is accepted only if the caller's context had ended by the time member j returned.
+  If(tried = 1..j /\ (j = upto \/ (j >= 1 /\ j < upto /\ o.cc # 0 /\ BatchOf(o, j) >= o.cc)), "one-order")
   \cup If((o.err # -1) = (Ok(o) = {}), "err-iff")
-  \cup If(Ok(o) = {} /\ o.err # -1 => o.err = 1, "first-error")
+  \cup If(Ok(o) = {} /\ o.err # -1 => IsErrOf(o, 1), "first-error")
   \cup If(WinnerVisible(o) /\ Ok(o) # {} /\ o.err = -1 => Idx(o) = Min(Ok(o)) /\ Msg(o) = Min(Ok(o)), "winner")
 
 FastFails(o) ==
   \* "returns the first success and errs only if every member fails"
   If((o.err # -1) = (Ok(o) = {}), "err-iff")
-  \cup If(Ok(o) = {} /\ o.err # -1 => o.err \in FirstIn(o, Bad(o)), "first-error")
+  \cup If(Ok(o) = {} /\ o.err # -1 => ErrAmong(o, FirstIn(o, Bad(o))), "first-error")
   \cup If(WinnerVisible(o) /\ Ok(o) # {} /\ o.err = -1 => Idx(o) \in FirstIn(o, Ok(o)) /\ Msg(o) = Idx(o), "winner")
 
 RaceFails(o) ==
   \* "returns the first response"
   LET F == FirstIn(o, Came(o)) IN
   If(IF o.err = -1 THEN F \cap Ok(o) # {} ELSE F \cap Bad(o) # {}, "err-iff")
-  \cup If(o.err # -1 /\ F \cap Bad(o) # {} => o.err \in F \cap Bad(o), "first-error")
+  \cup If(o.err # -1 /\ F \cap Bad(o) # {} => ErrAmong(o, F \cap Bad(o)), "first-error")
   \cup If(WinnerVisible(o) /\ o.err = -1 /\ F \cap Ok(o) # {} => Idx(o) \in F \cap Ok(o) /\ Msg(o) = Idx(o), "winner")
 
 (* What the call returned. *)
@@ -146,11 +170,10 @@ DecidedAt(o) ==
 (* aware members fail, turning an outcome the strategy rule calls a       *)
 (* success into an error.  So a member that saw a cancelled context when  *)
 (* it returned (batch k) must have a reason that was observable before it *)
-(* woke: the caller cancelled (0 in o.order, at or before batch k), or    *)
+(* woke: the caller's context ended (o.cc, at or before batch k), or      *)
 (* the members of earlier batches together with the lead of its own batch *)
 (* already decide the outcome.  (One hands the caller's context through:  *)
 (* only the caller's cancel is a reason.)                                 *)
-CallerCancelAt(o) == LET P == {j \in 1..Len(o.order) : o.order[j] = 0} IN IF P = {} THEN 0 ELSE Min(P) + 1
 DecidedBy(o, S) == CASE o.strat \in UpTo   -> o.n > 0 /\ FailsWith(o, Bad(o) \cap S)
                      [] o.strat = "Fast"   -> S \cap Ok(o) # {}
                      [] o.strat = "Race"   -> S \cap Came(o) # {}
@@ -158,7 +181,7 @@ DecidedBy(o, S) == CASE o.strat \in UpTo   -> o.n > 0 /\ FailsWith(o, Bad(o) \ca
 Before(o, k, m) == SeenUpTo(o, k - 1)
                    \cup (IF o.obs[k].lead # 0 /\ o.obs[k].lead # m THEN {o.obs[k].lead} ELSE {})
 CancelFails(o) ==
-  LET d == DecidedAt(o)  cc == CallerCancelAt(o) IN
+  LET d == DecidedAt(o)  cc == o.cc IN
   If(d # 0 => \A k \in (d + 1)..Len(o.obs) : \A m \in Range(o.obs[k].all) : o.seen[m], "not-cancelled")
   \cup If(\A k \in 1..Len(o.obs) : \A m \in Range(o.obs[k].all) :
             o.seen[m] => (cc # 0 /\ k >= cc) \/ DecidedBy(o, Before(o, k, m)), "cancelled-early")
